@@ -42,8 +42,12 @@ structure Graph where
   numEdges : Nat
 deriving Repr
 
-/-- `DynamicGraph::default()` -/
-def dflt : Graph := { nodes := #[], edges := #[], numNodes := 0, numEdges := 0 }
+/-- `DynamicGraph::default()`: the node array always ends with two entries past the last node
+    (D19 fixed: it used to be empty, and every later call panicked) -/
+def dflt : Graph := { nodes := #[⟨0, 0⟩, ⟨0, 0⟩], edges := #[], numNodes := 0, numEdges := 0 }
+
+/-- `Default` as it was before the D19 fix, kept only for the regression example in Props/C14 -/
+def legacyDflt : Graph := { nodes := #[], edges := #[], numNodes := 0, numEdges := 0 }
 
 /-- constructor loop: `for i in 0..number_of_nodes { while …; last_mut().edge_count = offset - prev;
     prev = offset; push(new(offset)) }`; `k` iterations left -/
